@@ -345,8 +345,20 @@ func (gb *gcpBalancer) getConnectionPoolSize() int {
 // newSubConn creates a new SubConn using cc.NewSubConn and initialize the subConnRef
 // if none of the subconns are in the Connecting state.
 func (gb *gcpBalancer) newSubConn() {
+	gb.newSubConnIfBelow(0)
+}
+
+// newSubConnIfBelow is newSubConn that also refuses, under the same lock that
+// guards the creation, to grow the pool to more than maxSize SubConns
+// (maxSize 0 means no limit). The caller's own size check is only a hint: another
+// pick may have added a SubConn since.
+func (gb *gcpBalancer) newSubConnIfBelow(maxSize int) {
 	gb.mu.Lock()
 	defer gb.mu.Unlock()
+
+	if maxSize > 0 && len(gb.scRefs) >= maxSize {
+		return
+	}
 
 	// there are chances the newly created subconns are still connecting,
 	// we can wait on those new subconns.
